@@ -814,8 +814,22 @@ func (f *frame) execGo(x *ssa.Go) {
 func (f *frame) havocAll(why string) {
 	c := f.c
 	old := c.nalloc(f.heap)
+	prev := f.heap
 	f.heap = c.newEpoch()
 	c.assume(implies(f.guard, ge(c.nalloc(f.heap), old)))
+	c.keepGhost(prev, f.heap, nil)
+}
+
+// keepGhost: ghost fields are specification state; code without a contract cannot name them, so a
+// wholesale havoc leaves them unchanged (assumption: callees without contract do not perform the
+// operations whose contracts update that ghost state).
+func (c *Ctx) keepGhost(from, to *heapState, except map[string]bool) {
+	for k, srt := range c.eng.heapSorts {
+		if strings.HasPrefix(k, "G ") && !except[k] {
+			to.arrays[k] = c.heapGet(from, k, srt)
+			c.assumed["ghost state ("+k[2:]+") is not changed by callees that have no contract"] = true
+		}
+	}
 }
 
 func (f *frame) execSend(x *ssa.Send) {
